@@ -284,4 +284,69 @@ theorem writeOption_insert {M : Meta} (hwf : M.wf) (lo hi : List (Nat × Bytes))
   rw [hread, hdrop4, hprelen]
   simp only [canonL, presentWord_insert, enc_append, enc, List.append_assoc]
 
+/-- parser construction on any canonical payload -/
+theorem mk_canonL {M : Meta} (hwf : M.wf) {fs : List (Nat × Bytes)} (hso : Sorted fs) (hsz : Sized M fs) :
+    ∃ p, Parser.mk' M (canonL M fs) = .ok p ∧ PAt M fs [] fs p ∧ p.ptr = 4 ∧ p.buf = canonL M fs ∧ p.null = false ∧ p.ns = 0 := by
+  cases hfs : fs with
+  | nil =>
+    obtain ⟨p, h1, h2, h3⟩ := mk_empty (M := M) hwf
+    exact ⟨p, h1, h2, h3, h2.1, h2.2.1, h2.2.2.1⟩
+  | cons x r =>
+    obtain ⟨b0, v0⟩ := x
+    have hb0 : b0 < M.max := by
+      have := hsz (b0, v0) (by rw [hfs]; exact List.mem_cons_self ..); exact this.1
+    have hal0 := (hwf.2 b0 hb0).2
+    refine ⟨stAt M ((b0, v0) :: r) [] b0, ?_, rfl, ?_, rfl, rfl, rfl⟩
+    · exact mk_nonempty hwf rfl (hfs ▸ hso) (hfs ▸ hsz)
+    · simp [stAt, encEnd_nil, padTo_eight _ hal0]
+
+/-- where a present field sits in the canonical payload -/
+theorem canonL_split (M : Meta) (lo hi : List (Nat × Bytes)) (bit : Nat) (v : Bytes) :
+    canonL M (lo ++ (bit, v) :: hi)
+      = (le32 (presentWord (lo ++ (bit, v) :: hi)) ++ enc M lo 8 ++ zeros (padTo (M.align bit) (encEnd M lo 8))) ++
+        (v ++ enc M hi (encEnd M lo 8 + padTo (M.align bit) (encEnd M lo 8) + v.length)) := by
+  simp [canonL, enc_append, enc]
+
+theorem canonL_split_len (M : Meta) (lo : List (Nat × Bytes)) (bit W : Nat) :
+    (le32 W ++ enc M lo 8 ++ zeros (padTo (M.align bit) (encEnd M lo 8))).length
+      = encEnd M lo 8 + padTo (M.align bit) (encEnd M lo 8) - 4 := by
+  simp [le32, encEnd, zeros_length]; omega
+
+/-- `write_option` of a field that is already present: overwritten in place -/
+theorem writeOption_overwrite {M : Meta} (hwf : M.wf) (lo hi : List (Nat × Bytes)) (bit : Nat) (old data : Bytes)
+    (hso : Sorted (lo ++ (bit, old) :: hi)) (hsz : Sized M (lo ++ (bit, old) :: hi)) (hlen : data.length = old.length) :
+    writeOption M (canonL M (lo ++ (bit, old) :: hi)) bit data = .ok (canonL M (lo ++ (bit, data) :: hi)) := by
+  obtain ⟨hlo, _, _⟩ := sorted_split hso
+  simp only at hlo
+  obtain ⟨hbit, hold⟩ := sized_mem hsz rfl
+  obtain ⟨p0, hp0, hpat0, hptr0, _⟩ := mk_canonL hwf hso hsz
+  have hfound := searchLoop_found hwf hso hsz bit data.length old hi (by omega) lo [] p0 p0.ptr
+    (loopFuel M (canonL M (lo ++ (bit, old) :: hi))) (by simp) hlo hpat0
+    (length_lt_loopFuel (sorted_append_left hso) (sized_append_left hsz) _)
+  simp only [List.nil_append] at hfound
+  have hsplit := canonL_split M lo hi bit old
+  have hplen := canonL_split_len M lo bit (presentWord (lo ++ (bit, old) :: hi))
+  have hptr : (stAt M (lo ++ (bit, old) :: hi) lo bit).ptr
+      = encEnd M lo 8 + padTo (M.align bit) (encEnd M lo 8) - 4 := rfl
+  have hnot : ¬ ((stAt M (lo ++ (bit, old) :: hi) lo bit).ptr + data.length > (canonL M (lo ++ (bit, old) :: hi)).length) := by
+    rw [hptr, hsplit, List.length_append, hplen]
+    simp only [List.length_append]
+    omega
+  unfold writeOption
+  have hbit' : ¬ (bit ≥ M.max) := by omega
+  simp only [hbit', if_false, hp0, hfound, hptr]
+  rw [hsplit, List.take_left' hplen]
+  have hd : (le32 (presentWord (lo ++ (bit, old) :: hi)) ++ enc M lo 8 ++ zeros (padTo (M.align bit) (encEnd M lo 8)) ++
+      (old ++ enc M hi (encEnd M lo 8 + padTo (M.align bit) (encEnd M lo 8) + old.length))).drop
+        (encEnd M lo 8 + padTo (M.align bit) (encEnd M lo 8) - 4 + data.length)
+      = enc M hi (encEnd M lo 8 + padTo (M.align bit) (encEnd M lo 8) + old.length) := by
+    rw [← hplen, List.drop_length_add_append, hlen]
+    exact List.drop_left
+  rw [hd, canonL_split M lo hi bit data, presentWord_replace lo hi bit old data, hlen]
+  simp only [List.append_assoc]
+  rw [if_neg]
+  have := hplen
+  simp only [List.length_append, le32_length, zeros_length] at this ⊢
+  omega
+
 end Tins.RT
